@@ -65,6 +65,21 @@ var floatTypes = []string{"float32", "float64"}
 
 func numTypes() []string { return append(append([]string{}, intTypes...), floatTypes...) }
 
+// quickInt / quickNum: the quick tier enumerates a signed narrow, a signed
+// middle, the default, an unsigned narrow and an unsigned middle integer type
+// and both float types; the thorough tier every numeric type.
+var quickInt = []string{"int8", "int32", "int", "byte", "uint16"}
+
+func (g *gen) ints() []string {
+	if g.thorough {
+		return intTypes
+	}
+
+	return quickInt
+}
+
+func (g *gen) nums() []string { return append(append([]string{}, g.ints()...), floatTypes...) }
+
 func isFloat(t string) bool  { return t == "float32" || t == "float64" }
 func isSigned(t string) bool { return strings.HasPrefix(t, "int") || isFloat(t) }
 
@@ -156,11 +171,11 @@ func (g *gen) consts(t string) []string {
 		return []string{"1", "2", "0"}
 	}
 
-	return []string{"1", "2"}
+	return []string{"1"}
 }
 
 func (g *gen) numericStatements() {
-	for _, t := range numTypes() {
+	for _, t := range g.nums() {
 		for _, v := range g.values(t) {
 			for _, k := range g.consts(t) {
 				for _, f := range stmtForms {
@@ -179,7 +194,7 @@ func (g *gen) numericStatements() {
 	// The same statements on a function parameter and on a named result
 	// (both are register candidates), on an undeclared-type variable (x := v),
 	// and padded so that the function is large enough for optimizer level 1.
-	for _, t := range numTypes() {
+	for _, t := range g.nums() {
 		v, k := "5", "1"
 
 		for _, f := range stmtForms {
@@ -210,7 +225,7 @@ func (g *gen) numericStatements() {
 	}
 
 	// Thorough: every ordered pair of statement forms on the same variable.
-	for _, t := range numTypes() {
+	for _, t := range g.nums() {
 		for _, v := range []string{"5", maxOf[t]} {
 			for _, f1 := range stmtForms {
 				for _, f2 := range stmtForms {
@@ -246,7 +261,7 @@ fmt.Printf("OUT|pad %v %v %v %v\n", pa, pd, pe, pf)
 var cmpOps = []string{"<", "<=", ">", ">=", "==", "!="}
 
 func (g *gen) comparisons() {
-	for _, t := range numTypes() {
+	for _, t := range g.nums() {
 		for _, op := range cmpOps {
 			ks := []string{"5", "6"}
 			if g.thorough {
@@ -305,7 +320,7 @@ func (g *gen) constantFolds() {
 		g.add("fold:arg", "-", e, "", out("%v %T", e, e))
 	}
 
-	for _, t := range numTypes() {
+	for _, t := range g.nums() {
 		for _, e := range []string{"2 + 3", "100 + 100", "7 / 2", "2 - 3", "1.5 + 2", "20 * 20", `"1" + "2"`} {
 			g.add("fold:typedvar", t, e, "", fmt.Sprintf("var x %s = %s\n", t, e)+show("x"))
 			g.add("fold:typedassign", t, e, "", fmt.Sprintf("var x %s\nx = %s\n", t, e)+show("x"))
@@ -323,7 +338,7 @@ func (g *gen) constantFolds() {
 }
 
 func (g *gen) loops() {
-	for _, t := range numTypes() {
+	for _, t := range g.nums() {
 		body := fmt.Sprintf("var x %s = 0\nfor i := 0; i < 5; i++ {\nx = x + 2\n}\n", t) + show("x")
 		g.add("loop:index", t, "x=x+2", "", body)
 
@@ -541,7 +556,7 @@ func (g *gen) collections() {
 		g.add("map:set-const", t, "m[k]=k", "", fmt.Sprintf("m := map[string]%s{}\nm[\"a\"] = %s\nm[\"a\"] = %s\n", t, one, k)+out("%v %v", "m[\"a\"]", "len(m)"))
 	}
 
-	for _, t := range intTypes {
+	for _, t := range g.ints() {
 		g.add("slice:elem++", t, "a[i]++", "", fmt.Sprintf("a := []%s{1, 2, 3}\na[1]++\na[2]--\n", t)+show("a"))
 	}
 
@@ -574,7 +589,7 @@ func (g *gen) structs() {
 		g.add("struct:copy", t, "copy", decl, fmt.Sprintf("s := S@@{f: %s, n: 1}\nc := s\nc.f = c.f + %s\n", v, k)+show("s.f", "c.f"))
 	}
 
-	for _, t := range intTypes {
+	for _, t := range g.ints() {
 		decl := fmt.Sprintf("type S@@ struct {\nf %s\n}\n", t)
 		g.add("struct:field++", t, "s.f++", decl, "s := S@@{f: 5}\ns.f++\ns.f--\ns.f++\n"+show("s.f"))
 	}
@@ -713,7 +728,7 @@ func (g *gen) aborts() {
 	ab("abort:in-try-then-abort", "int", "second-error", "", "z := 0\ntry {\nx := 1 / z\n_ = x\n} catch (e) {\n"+out("caught %v", "e")+"}\ny := 2 / z\n"+show("y"))
 	ab("abort:assert-const", "-", "const-write", "const K@@ = 1\n", out("before")+"K@@ = 2\n"+out("after %v", "K@@"))
 
-	for _, t := range numTypes() {
+	for _, t := range g.nums() {
 		ab("abort:loop-incr", t, "x=x+1 x3", "", fmt.Sprintf("var x %s = 5\nfor i := 0; i < 3; i++ {\nx = x + 1\n}\n", t)+show("x"))
 	}
 }
